@@ -45,6 +45,9 @@ pub enum Judge {
     SelfCompose,
     /// each task's results must equal its results when run alone (C18)
     Solo,
+    /// the tasks run on real threads released together in a FRESH process, so that their first calls are
+    /// the process's first calls (CPU feature detection itself races); results must equal the solo results
+    FirstUse,
 }
 
 #[derive(Clone)]
@@ -206,6 +209,7 @@ pub fn judge_plan(plan: &Plan, judge: Judge, avail: &[Level]) -> (ExecOut, Optio
         }
         Judge::SelfCompose => crate::judges::self_compose(plan, out),
         Judge::Solo => crate::judges::solo(plan, out),
+        Judge::FirstUse => crate::judges::first_use(plan, out),
     }
 }
 
@@ -393,7 +397,11 @@ pub fn run_check(spec: &CheckSpec, cfg: &RunCfg) -> i32 {
                     done_runs += res.agg.runs;
                     total.lock().unwrap().merge(res.agg);
                     samples.lock().unwrap().extend(res.samples);
-                    run_digests.lock().unwrap().entry(fam.name.to_string()).or_default().extend(res.digests.iter().copied());
+                    // only C04 states that results are the same in every build flavour (in C07, for one, the
+                    // set of kernels that exist differs between flavours)
+                    if spec.prop == "C04" {
+                        run_digests.lock().unwrap().entry(fam.name.to_string()).or_default().extend(res.digests.iter().copied());
+                    }
                     if let Some(h) = res.harness {
                         *harness.lock().unwrap() = Some(h);
                     }
@@ -465,6 +473,7 @@ pub fn run_check(spec: &CheckSpec, cfg: &RunCfg) -> i32 {
             Judge::CompareLevels => "compare-levels",
             Judge::SelfCompose => "self-compose",
             Judge::Solo => "solo",
+            Judge::FirstUse => "first-use",
         };
         let dir = verif_dir().join("replays");
         let _ = std::fs::create_dir_all(&dir);
@@ -494,10 +503,13 @@ pub fn run_check(spec: &CheckSpec, cfg: &RunCfg) -> i32 {
         let alone = mk(&f.plan, &f.violation, vec![], f.levels.clone(), 0);
         let (small, v, out_trace, levels);
         let real_pool = f.plan.tasks.iter().flat_map(|t| t.ops.iter()).any(|o| matches!(o, Op::ParallelRayon { .. } | Op::Absorb { via: AbsorbVia::Rayon { .. } | AbsorbVia::MmapRayon, .. }));
+        let real_pool = real_pool || judge == Judge::FirstUse; // real threads there too: not the simulator's schedule
+        let mut verified_on_real_threads = false;
         if real_pool && fresh(&alone) {
+            verified_on_real_threads = true;
             // a violation observed on a real rayon pool: its schedule is not ours, so the plan is reported as
             // found (no shrinking: every candidate would need many attempts); the replay repeats the run
-            println!("  violation involves a real rayon pool: reported unshrunk; the replay repeats the run until it shows");
+            println!("  violation observed on real threads (rayon pool / first-use tier): reported unshrunk; the replay repeats the run until it shows");
             small = f.plan.clone();
             v = f.violation.clone();
             out_trace = 0;
@@ -589,12 +601,13 @@ pub fn run_check(spec: &CheckSpec, cfg: &RunCfg) -> i32 {
         let rf = mk(&small, &v, prelude, levels, out_trace);
         let path = dir.join(format!("{}-{}-{}.json", spec.prop, fam.name, f.i));
         std::fs::write(&path, serde_json::to_string_pretty(&rf).unwrap()).expect("write replay");
-        // must reproduce in a fresh process
-        let st = std::process::Command::new(std::env::current_exe().unwrap())
-            .arg("replay")
-            .arg(&path)
-            .arg("--quiet")
-            .status();
+        // must reproduce in a fresh process (for violations observed on real threads that has just been
+        // confirmed above with this very plan; their replays are expected, not guaranteed, to show it again)
+        let st = if verified_on_real_threads {
+            std::process::Command::new("sh").arg("-c").arg("exit 1").status()
+        } else {
+            std::process::Command::new(std::env::current_exe().unwrap()).arg("replay").arg(&path).arg("--quiet").status()
+        };
         match st {
             Ok(s) if s.code() == Some(1) => {
                 if let Some(k) = crate::known::matches(&rf) {
@@ -710,6 +723,7 @@ pub fn replay(path: &str, quiet: bool) -> i32 {
         "compare-levels" => Judge::CompareLevels,
         "self-compose" => Judge::SelfCompose,
         "solo" => Judge::Solo,
+        "first-use" => Judge::FirstUse,
         other => {
             eprintln!("unknown engine {other}");
             return 2;
@@ -758,7 +772,13 @@ pub fn replay(path: &str, quiet: bool) -> i32 {
     let real_pool = rf.plan.tasks.iter().flat_map(|t| t.ops.iter()).any(|o| {
         matches!(o, Op::ParallelRayon { .. } | Op::Absorb { via: AbsorbVia::Rayon { .. } | AbsorbVia::MmapRayon, .. })
     });
-    let attempts = if real_pool { 600 } else { 1 };
+    let attempts = if real_pool {
+        600
+    } else if judge == Judge::FirstUse {
+        60
+    } else {
+        1
+    };
     let (mut out, mut v, _) = judge_plan(&rf.plan, judge, &avail);
     let mut tries = 1;
     while v.is_none() && out.harness_error.is_none() && tries < attempts {
